@@ -202,7 +202,7 @@ def ext1 : Ext :=
     decRescale := fun _ _ => (0, 0) }
 
 theorem ext1_ok : ExtOK ext1 :=
-  ⟨fun _ _ => by simp [ext1, inI128], fun _ _ h => by simp [ext1] at h, fun _ _ h => by simp [ext1] at h⟩
+  ⟨fun _ _ _ => by simp [ext1, inI128], fun _ _ h => by simp [ext1] at h, fun _ _ h => by simp [ext1] at h⟩
 
 theorem good_empty : Good {} := ⟨rfl, by simp [PoolClean]⟩
 
